@@ -19,7 +19,9 @@ PROPERTY = "C03"
 LEVEL = "exploration"
 RULE = (
     "Hypothesis-generated ints biased to unit multiples +/-1, range edges and 10% beyond the range, evaluated against "
-    "an int model of nanoseconds (seconds for Offset); Offset's unary domain (129601 values) enumerated. "
+    "an int model of nanoseconds (seconds for Offset); Offset's unary domain (129601 values) enumerated; saturating "
+    "offset application (Instant._safe_plus / _LocalInstant._safe_minus) on the first/last day and landing exactly on "
+    "the day boundary; Offset.from_timedelta within 2 s of +/-18 h. "
     "Non-trivial: operands of opposite sign, a result crossing a day boundary, a non-zero sub-unit remainder, or a "
     "value within two units of a range edge / out of range. Distinct = distinct (kind, case) hash."
 )
@@ -446,7 +448,17 @@ def _k_off_factory(c) -> CaseInfo:
     from pyoda_time import Offset
 
     unit_name, n = c["unit"], c["n"]
-    per_sec = {"seconds": 1, "milliseconds": 1000, "ticks": 10**7, "nanoseconds": SEC}
+    per_sec = {"seconds": 1, "milliseconds": 1000, "ticks": 10**7, "nanoseconds": SEC, "timedelta": 10**6}
+    if unit_name == "timedelta":
+        # documented: fractional seconds truncated; raises when the timedelta itself is outside +/- 18 hours
+        import datetime
+
+        if abs(n) > 10**6 * 86400 * 400:
+            raise InvalidCase
+        ok = -OFF_MAX * 10**6 <= n <= OFF_MAX * 10**6
+        r = call(Offset.from_timedelta, datetime.timedelta(microseconds=n))
+        check_off_result(r, tdiv(n, 10**6) if ok else 10**9, "from_timedelta")
+        return CaseInfo(not ok or n % 10**6 != 0 or abs(n) >= (OFF_MAX - 2) * 10**6, "off_factory")
     if unit_name == "hours":
         model = n * 3600
         ok = -18 <= n <= 18
@@ -489,6 +501,60 @@ def _k_off_binop(c) -> CaseInfo:
     need(Offset.max(A, B).seconds == max(a, b) and Offset.min(A, B).seconds == min(a, b), "minmax")
     nt = abs(a + b) > OFF_MAX - 2 or abs(a - b) > OFF_MAX - 2 or (a < 0) != (b < 0)
     return CaseInfo(nt, "off_binop")
+
+
+def _k_safe(c) -> CaseInfo:
+    """Offset application that saturates at the ends of time (the zone code's view of Instant +/- Offset).
+
+    Instant._safe_plus(offset): the local instant i + offset if its day lies in the supported day range, else the
+    before-min / after-max sentinel. _LocalInstant._safe_minus(offset) likewise in the other direction. The plain
+    _plus/_minus raise instead. Sentinels map to sentinels.
+    """
+    from pyoda_time import Instant
+    from pyoda_time._local_instant import _LocalInstant
+
+    i, sec = c["i"], c["s"]
+    if not (in_inst(i) and -OFF_MAX <= sec <= OFF_MAX):
+        raise InvalidCase
+    off = _off(sec)
+    min_day, max_day = INST_MIN // DAY, INST_MAX // DAY
+    local = i + sec * SEC
+    res = call(_inst(i)._safe_plus, off)
+    need(res is not RAISED, "safe_plus/raised", f"instant {i} offset {sec}s")
+    if local // DAY < min_day:
+        need(res == _LocalInstant.before_min_value() and not res._is_valid, "safe_plus/not-before-min", f"instant {i} offset {sec}s")
+    elif local // DAY > max_day:
+        need(res == _LocalInstant.after_max_value() and not res._is_valid, "safe_plus/not-after-max", f"instant {i} offset {sec}s")
+    else:
+        need(res._is_valid and res._time_since_local_epoch.to_nanoseconds() == local, "safe_plus/value", f"instant {i} offset {sec}s: {res._time_since_local_epoch.to_nanoseconds()} != {local}")
+        check_dur(res._time_since_local_epoch, local, "safe_plus")
+    r2 = call(_inst(i)._plus, off)
+    if min_day <= local // DAY <= max_day:
+        need(r2 is not RAISED and r2._time_since_local_epoch.to_nanoseconds() == local, "plus(offset)/value", f"instant {i} offset {sec}s")
+    else:
+        need(r2 is RAISED, "plus(offset)/out-of-range-not-raised", f"instant {i} offset {sec}s")
+    # the reverse direction, from the local instant with the same nanosecond count
+    li = _LocalInstant._ctor(days=i // DAY, nano_of_day=i % DAY)
+    back = i - sec * SEC
+    r3 = call(li._safe_minus, off)
+    need(r3 is not RAISED, "safe_minus/raised", f"local {i} offset {sec}s")
+    if back // DAY < min_day:
+        need(r3 == Instant._before_min_value() and not r3._is_valid, "safe_minus/not-before-min", f"local {i} offset {sec}s")
+    elif back // DAY > max_day:
+        need(r3 == Instant._after_max_value() and not r3._is_valid, "safe_minus/not-after-max", f"local {i} offset {sec}s")
+    else:
+        need(r3._is_valid, "safe_minus/invalid", f"local {i} offset {sec}s")
+        check_inst(r3, back, "safe_minus")
+    r4 = call(li._minus, off)
+    check_inst_result(r4, back, "minus(offset)")
+    # sentinels stay sentinels
+    need(Instant._before_min_value()._safe_plus(off) == _LocalInstant.before_min_value(), "safe_plus/sentinel")
+    need(Instant._after_max_value()._safe_plus(off) == _LocalInstant.after_max_value(), "safe_plus/sentinel")
+    need(_LocalInstant.before_min_value()._safe_minus(off) == Instant._before_min_value(), "safe_minus/sentinel")
+    need(_LocalInstant.after_max_value()._safe_minus(off) == Instant._after_max_value(), "safe_minus/sentinel")
+    edge = not (min_day <= local // DAY <= max_day and min_day <= back // DAY <= max_day)
+    exact = local % DAY == 0 or back % DAY == 0
+    return CaseInfo(edge or exact or i // DAY in (min_day, max_day), "safe")
 
 
 # ---------------------------------------------------------------------------------------------------------------
@@ -570,12 +636,22 @@ def task_hyp(ctx: Ctx, shard: int, n: int) -> None:
 def task_hyp_inst_factories(ctx: Ctx, shard: int, n: int) -> None:
     s = sub_seed(ctx.seed, "c03-if", shard)
 
-    def body(unit, raw, off_unit, off_n, h, m, oa, ob):
+    def body(unit, raw, off_unit, off_n, h, m, oa, ob, td, edge_x):
         u = {"seconds": SEC, "milliseconds": MS, "ticks": TICK}[unit]
         ctx.case("inst_factory", {"unit": unit, "n": raw // u})
         ctx.case("off_factory", {"unit": off_unit, "n": off_n if off_unit != "hours" else off_n % 41 - 20})
         ctx.case("off_hm", {"h": h, "m": m})
         ctx.case("off_binop", {"a": oa, "b": ob})
+        ctx.case("off_factory", {"unit": "timedelta", "n": td})
+        # saturating offset application: anywhere, on the first/last day, and landing exactly on the day boundary
+        ctx.case("safe", {"i": raw if in_inst(raw) else raw % DAY, "s": oa})
+        ctx.case("safe", {"i": (INST_MAX - edge_x) if h % 2 else (INST_MIN + edge_x), "s": ob})
+        ex = (INST_MAX + 1) - oa * SEC + (m % 3 - 1) if oa > 0 else INST_MIN - oa * SEC + (m % 3 - 1)
+        if in_inst(ex):
+            ctx.case("safe", {"i": ex, "s": oa})
+        ex2 = (INST_MAX + 1) + ob * SEC + (m % 3 - 1) if ob < 0 else INST_MIN + ob * SEC + (m % 3 - 1)
+        if in_inst(ex2):
+            ctx.case("safe", {"i": ex2, "s": ob})
 
     off_units = st.sampled_from(["seconds", "milliseconds", "ticks", "nanoseconds", "hours"])
     run_hypothesis(
@@ -594,6 +670,11 @@ def task_hyp_inst_factories(ctx: Ctx, shard: int, n: int) -> None:
             m=st.integers(-100, 100),
             oa=ints_biased(-OFF_MAX, OFF_MAX, (60, 3600)),
             ob=ints_biased(-OFF_MAX, OFF_MAX, (60, 3600)),
+            td=st.one_of(
+                ints_biased(-(OFF_MAX + 7200) * 10**6, (OFF_MAX + 7200) * 10**6, (10**6, 60 * 10**6, 3600 * 10**6), 0.05),
+                st.builds(lambda sg, x: sg * (OFF_MAX * 10**6 + x), st.sampled_from([-1, 1]), st.integers(-2 * 10**6, 2 * 10**6)),
+            ),
+            edge_x=ints_biased(0, 2 * DAY, (SEC, HOUR, DAY)),
         ),
         n,
         s,
